@@ -163,7 +163,7 @@ def gen_leaf(rng, ns, nu, allow, in_split_state=False, in_split_input=False):
             s = ('sk', int(rng.integers(0, 9)))
         elif k == 'angle':
             cnt = int(rng.integers(0, min(n, 3) + 1))
-            feats = tuple(sorted(int(x) for x in rng.choice(n, size=cnt, replace=False)))
+            feats = tuple(int(x) for x in rng.choice(n, size=cnt, replace=False))   # any order
             s = ('angle', feats, bool(rng.random() < 0.25))
         else:
             raise ValueError(k)
@@ -212,6 +212,9 @@ def gen_layout(rng, w, short_prob=0.0, max_eps=4, extra=5):
     """Episode layout: list of (label, length) plus an arrangement of rows."""
     n_eps = int(rng.integers(1, max_eps + 1))
     pool = [0, 1, 2, 3, 4, 5, 7, 9, 12]
+    if rng.random() < 0.2:
+        # large, adjacent labels (run ids): float comparison of labels must stay exact
+        pool = [100000, 100001, 100002, 250000, 250001, 3000000, 3000001]
     labels = [int(x) for x in rng.choice(pool, size=n_eps, replace=False)]
     lens = []
     for _ in labels:
